@@ -45,6 +45,7 @@ type Cfg struct {
 	SetCap      bool
 	FilterSec   bool
 	Macros      bool // _self macros in the same template
+	RecMacro    bool // a macro that loops and calls itself from the loop body (bounded depth)
 	Blocks      bool // standalone blocks with block()
 	Do          bool
 	Probe       bool // probe(name) calls (C07)
@@ -518,7 +519,14 @@ func (g *G) arrExpr(ty Ty, d int) *m.E {
 	case 2:
 		if ty == TArrInt {
 			lo := g.intn("rlo", 0, 5)
-			return m.EBin("..", m.ENum(float64(lo)), m.ENum(float64(lo+g.intn("rlen", 0, 5))))
+			hi := lo + g.intn("rlen", 0, 5)
+			if g.intn("rdesc", 0, 3) == 0 {
+				// a range counts down when its first end is the larger one
+				// (numbers below zero are written with a unary minus and a
+				// group: not here)
+				lo, hi = hi, lo
+			}
+			return m.EBin("..", m.ENum(float64(lo)), m.ENum(float64(hi)))
 		}
 	case 3:
 		if g.callsOK() {
@@ -1006,6 +1014,49 @@ func (g *G) MacroDef(idx int) *m.N {
 	return n
 }
 
+// recMacro generates a macro that iterates and calls itself from inside the
+// loop body, down to a bounded depth, and reads the loop's variables, its own
+// parameters and what it captured after the nested call has returned: the
+// same for, set and filter nodes are active several times at once.
+func (g *G) recMacro() (*m.N, []*m.N) {
+	d, tag := m.EName("d"), m.EName("tag")
+	width := g.intn("recw", 1, 3)
+	rec := &m.E{K: "mcall", S: "rec", T: "self", A: []*m.E{m.EBin("-", d, m.ENum(1)), m.EBin("~", tag, m.EName("i"))}}
+	deeper := &m.N{K: "if", X: m.EBin(">", d, m.ENum(0)), Body: []*m.N{m.NPrint(rec)}}
+	var inner []*m.N
+	switch g.intn("recwhere", 0, 3) {
+	case 0:
+		inner = []*m.N{deeper}
+	case 1:
+		inner = []*m.N{{K: "setcap", S: "cap", Body: []*m.N{m.NText("<"), m.NPrint(d), deeper, m.NText(">")}}, m.NPrint(m.EName("cap"))}
+	case 2:
+		inner = []*m.N{{K: "filter", Names: []string{pickS(g, "recfilt", []string{"wrap", "up", "fid"})}, Body: []*m.N{m.NText("f"), m.NPrint(m.EName("i")), deeper, m.NPrint(tag)}}}
+	default:
+		inner = []*m.N{{K: "set", S: "cap", X: m.EBin("~", m.EStr("s"), m.ECond(m.EBin(">", d, m.ENum(0)), rec, m.EStr("")))}, m.NPrint(m.EName("cap"))}
+	}
+	body := []*m.N{m.NText("["), m.NPrint(m.EName("i")), m.NPrint(tag)}
+	body = append(body, inner...)
+	// after the nested call: the loop variable, the metadata and the parameters
+	after := []*m.N{m.NText("|"), m.NPrint(m.EName("i")), m.NText("/"), m.NPrint(m.EAttr(m.EName("loop"), "index")), m.NText("/"), m.NPrint(m.EAttr(m.EName("loop"), "length")),
+		m.NPrint(m.ECond(m.EAttr(m.EName("loop"), "last"), m.EStr("L"), m.EStr(","))), m.NPrint(tag), m.NPrint(d), m.NText("]")}
+	body = append(body, after...)
+	loop := &m.N{K: "for", S: "i", X: m.EBin("..", m.ENum(1), m.ENum(float64(width))), Body: body}
+	if g.flip("reckv") {
+		// a key/value loop over a hash literal with one entry per level
+		loop = &m.N{K: "for", T: "k", S: "i", X: &m.E{K: "hash", KS: []*m.E{m.EName("x")}, A: []*m.E{d}}, Body: append([]*m.N{m.NPrint(m.EName("k"))}, append(body, m.NPrint(m.EName("k")))...)}
+	}
+	def := &m.N{K: "macro", S: "rec", Names: []string{"d", "tag"}, Body: []*m.N{loop, m.NText(";")}}
+	depth := 2
+	if width == 3 {
+		depth = 1
+	}
+	call := m.NPrint(&m.E{K: "mcall", S: "rec", T: "self", A: []*m.E{m.ENum(float64(g.intn("recd", 1, depth))), m.EStr("r")}})
+	if g.flip("recinloop") {
+		return def, []*m.N{{K: "for", S: "o", X: m.EBin("..", m.ENum(1), m.ENum(2)), Body: []*m.N{call, m.NPrint(m.EName("o"))}}}
+	}
+	return def, []*m.N{call}
+}
+
 func (g *G) macroCall() *m.E {
 	mi := pickS(g, "macro", g.macros)
 	na := g.intn("nargs", 0, 6)
@@ -1029,6 +1080,12 @@ func (g *G) Program() *m.Program {
 	n := g.intn("toplen", 1, g.C.BodyLen+2)
 	for i := 0; i < n; i++ {
 		t.Body = append(t.Body, g.Stmt(g.C.Nest)...)
+	}
+	if g.C.RecMacro && g.intn("recmacro", 0, 2) == 0 {
+		def, call := g.recMacro()
+		t.Body = append([]*m.N{def}, t.Body...)
+		at := 1 + g.intn("recat", 0, len(t.Body)-1)
+		t.Body = append(t.Body[:at:at], append(call, t.Body[at:]...)...)
 	}
 	// the very last literal chunk may end in a lone brace (nothing follows it)
 	if g.C.HostileText && g.intn("tailbrace", 0, 3) == 0 {
